@@ -64,6 +64,18 @@ def get_vdrv(timeout_cpu=20):
     return _VD
 
 
+def reset_vdrv():
+    """Close this process's driver worker (never drop the handle without closing it:
+    an orphaned ASan worker keeps ~300 MB)."""
+    global _VD
+    if _VD is not None:
+        try:
+            _VD.close()
+        except Exception:
+            pass
+        _VD = None
+
+
 def crash_info(e):
     """Summarise a driver.Died into a dict(kind, sig, detail)."""
     if e.timeout:
